@@ -96,7 +96,7 @@ struct ArraysWorld : World {
 
 	void gen(Rng &r, Plan &p, int tier) override {
 		int kind = sim::g_mode == 1 ? (int) r.below(2) : sim::g_mode == 2 ? K_TRACKED : (int) r.below(3);
-		if (r.chance(1, 4)) kind = sim::g_mode == 1 ? K_CXX_BYTES : sim::g_mode == 2 ? K_CXX_TRACKED : (r.chance(1, 2) ? K_CXX_BYTES : K_CXX_TRACKED);
+		if (r.chance(1, 4)) kind = sim::g_mode == 1 ? (r.chance(2, 3) ? K_CXX_BYTES : K_CXX_TRACKED) : sim::g_mode == 2 ? K_CXX_TRACKED : (r.chance(1, 2) ? K_CXX_BYTES : K_CXX_TRACKED);   // the typed containers carry C04's value semantics as well
 		p.set("kind", kind);
 		if (kind >= K_CXX_BYTES) { gen_cxx(r, p, tier, kind); return; }
 		p.set("nh", r.range(2, 4));
@@ -126,7 +126,7 @@ struct ArraysWorld : World {
 		bool allocf = r.chance(1, 3);
 		for (int i = 0; i < nops; ++i) {
 			Op op;
-			static const int b_ops[] = {OP_X_ASSIGN, OP_X_ASSIGN, OP_X_APPEND, OP_X_APPEND, OP_X_INSERT, OP_X_INSERT, OP_X_SET, OP_X_SET, OP_X_RELEASE, OP_X_PRINTF};
+			static const int b_ops[] = {OP_X_ASSIGN, OP_X_ASSIGN, OP_X_APPEND, OP_X_APPEND, OP_X_INSERT, OP_X_INSERT, OP_X_SET, OP_X_SET, OP_X_RELEASE, OP_X_PRINTF, OP_X_TINSERT, OP_X_TINSERT, OP_X_TSET, OP_X_RESIZE, OP_X_RESIZE, OP_X_RESERVE, OP_X_DETACH};
 			static const int t_ops[] = {OP_X_ASSIGN, OP_X_ASSIGN, OP_X_TINSERT, OP_X_TINSERT, OP_X_UINSERT, OP_X_TSET, OP_X_TSET, OP_X_RESIZE, OP_X_RESERVE, OP_X_DETACH, OP_X_RELEASE, OP_X_MAP, OP_X_PTRS};
 			op.kind = kind == K_CXX_BYTES ? r.pick(b_ops) : r.pick(t_ops);
 			op.a = r.below(3) | (r.below(3) << 8);
@@ -547,7 +547,9 @@ struct ArraysWorld : World {
 		T = Track();
 		array *A[3]; std::vector<uint8_t> M3[3];
 		for (auto &a : A) { Sut s; a = new array(); }
-		log.ev("arrays kind=cxx-bytes (mpt::array)");
+		typed_array<uint32_t> *PA[3]; std::vector<uint32_t> MP3[3];     // plain elements: no constructor, new ones must read as zero
+		for (auto &a : PA) { Sut s; a = new typed_array<uint32_t>(); }
+		log.ev("arrays kind=cxx-bytes (mpt::array, typed_array<uint32_t>)");
 		st.hit("kind:cxx_bytes");
 		auto verify3 = [&](const char *after, int operated) {
 			check_pending();
@@ -561,6 +563,14 @@ struct ArraysWorld : World {
 					fail(h == operated ? "wrong-content" : "other-handle-changed", "after %s on C++ array %d: array %d reads %zu bytes, a value-semantics vector holds %zu (first difference at %zu)", after, operated, h, len, M3[h].size(), k);
 				}
 			}
+			for (int h = 0; h < 3; ++h) {
+				long n = PA[h]->length(); const uint32_t *b = PA[h]->begin();
+				bool same = (size_t) n == MP3[h].size() && (!n || !memcmp(b, MP3[h].data(), (size_t) n * 4));
+				if (!same) {
+					size_t k = 0; while (k < (size_t) n && k < MP3[h].size() && b[k] == MP3[h][k]) ++k;
+					fail(h + 10 == operated ? "wrong-content" : "other-handle-changed", "after %s on typed_array<uint32_t> %d: typed_array %d reads %ld elements, a value-semantics vector holds %zu (first difference at %zu)", after, operated - 10, h, n, MP3[h].size(), k);
+				}
+			}
 		};
 		for (const Op &op : p.ops) {
 			int h = (int) (op.a & 0xff) % 3, h2 = (int) ((op.a >> 8) & 0xff) % 3;
@@ -569,13 +579,13 @@ struct ArraysWorld : World {
 			if (len > 400) len = 400;
 			if (pos > 600) pos = 600;
 			uint64_t failn = op.fault == FL_ALLOC ? (uint64_t) std::max<int64_t>(op.fa, 1) : 0, fired = 0;
-			bool was_shared = A[h]->shared(); bool nul = (op.c % 5) == 0; int outcome = 0;
+			bool was_shared = A[h]->shared(); bool nul = (op.c % 5) == 0; int outcome = 0, operated = h;
 			std::vector<uint32_t> v32 = fresh(len); std::vector<uint8_t> vals(v32.begin(), v32.end());
 			Block src(len, 0); if (len) memcpy(src.p, vals.data(), len);
 			st.hit(std::string("op:") + OPS[op.kind]);
 			switch (op.kind) {
-			case OP_X_ASSIGN: { { Sut s; *A[h] = *A[h2]; } M3[h] = M3[h2]; log.ev("X_ASSIGN %d = %d", h, h2); outcome = 1; break; }
-			case OP_X_RELEASE: { { Sut s; *A[h] = array(); } M3[h].clear(); log.ev("X_RELEASE %d", h); outcome = 1; break; }
+			case OP_X_ASSIGN: { if (op.c & 1) { { Sut s; *PA[h] = *PA[h2]; } MP3[h] = MP3[h2]; operated = h + 10; log.ev("X_ASSIGN plain %d = %d", h, h2); } else { { Sut s; *A[h] = *A[h2]; } M3[h] = M3[h2]; log.ev("X_ASSIGN %d = %d", h, h2); } outcome = 1; break; }
+			case OP_X_RELEASE: { if (op.c & 1) { { Sut s; *PA[h] = typed_array<uint32_t>(); } MP3[h].clear(); operated = h + 10; log.ev("X_RELEASE plain %d", h); } else { { Sut s; *A[h] = array(); } M3[h].clear(); log.ev("X_RELEASE %d", h); } outcome = 1; break; }
 			case OP_X_APPEND: {
 				void *r; { Sut s(failn); r = A[h]->append(len, nul ? 0 : src.p); fired = g.fired; }
 				log.ev("X_APPEND %d len=%zu%s%s -> %s", h, len, nul ? " zeros" : "", fired ? " allocfail" : "", r ? "ok" : "null");
@@ -599,13 +609,49 @@ struct ArraysWorld : World {
 				break;
 			}
 			case OP_X_PRINTF: break;
+			case OP_X_TINSERT: case OP_X_TSET: case OP_X_RESIZE: case OP_X_RESERVE: case OP_X_DETACH: {
+				long usedn = PA[h]->length(); uint32_t val = fresh(1)[0] | 0x01000000u;
+				long tpos = (long) sel(op.b & 0xff, (int) ((op.b >> 8) & 0xf), (size_t) usedn, (size_t) usedn + 2, (uint64_t) op.c); if (tpos > 40) tpos = 40;
+				operated = h + 10;
+				if (op.kind == OP_X_TINSERT) {
+					bool ok; { Sut s(failn); ok = PA[h]->insert(tpos, val); fired = g.fired; }
+					log.ev("X_TINSERT plain %d pos=%ld of %ld%s -> %d", h, tpos, usedn, fired ? " allocfail" : "", (int) ok);
+					if (ok) { if ((size_t) tpos > MP3[h].size()) MP3[h].resize((size_t) tpos, 0); MP3[h].insert(MP3[h].begin() + tpos, val); outcome = 1; }
+					else if (!fired) fail("refused-valid", "typed_array<uint32_t> insert at %ld of %ld refused without allocation fault", tpos, usedn);
+				} else if (op.kind == OP_X_TSET) {
+					bool ok; { Sut s(failn); ok = PA[h]->set(tpos, val); fired = g.fired; }
+					log.ev("X_TSET plain %d pos=%ld of %ld%s -> %d", h, tpos, usedn, fired ? " allocfail" : "", (int) ok);
+					if (tpos >= usedn) { if (ok) fail("accepted-invalid", "typed_array<uint32_t> set at %ld accepted with %ld elements", tpos, usedn); }
+					else if (ok) { MP3[h][(size_t) tpos] = val; outcome = 1; }
+					else if (!fired) fail("refused-valid", "typed_array<uint32_t> set at %ld of %ld refused without allocation fault", tpos, usedn);
+				} else if (op.kind == OP_X_RESIZE) {
+					long n = (long) ((size_t) op.c % 12);
+					bool ok; { Sut s(failn); ok = PA[h]->resize(n); fired = g.fired; }
+					log.ev("X_RESIZE plain %d to %ld (from %ld)%s -> %d", h, n, usedn, fired ? " allocfail" : "", (int) ok);
+					if (ok) { MP3[h].resize((size_t) n, 0); outcome = 1; }
+					else if (!fired) fail("refused-valid", "typed_array<uint32_t> resize to %ld refused without allocation fault", n);
+				} else if (op.kind == OP_X_RESERVE) {
+					long n = (long) ((size_t) op.c % 20);
+					bool ok; { Sut s(failn); ok = PA[h]->reserve(n); fired = g.fired; }
+					log.ev("X_RESERVE plain %d %ld%s -> %d", h, n, fired ? " allocfail" : "", (int) ok);
+					if ((long) MP3[h].size() > n && PA[h]->length() == n) MP3[h].resize((size_t) n);
+					outcome = ok;
+				} else {
+					bool ok; { Sut s(failn); ok = PA[h]->detach(); fired = g.fired; }
+					log.ev("X_DETACH plain %d%s -> %d", h, fired ? " allocfail" : "", (int) ok);
+					if (!ok && !fired) fail("refused-valid", "typed_array<uint32_t> detach refused without allocation fault");
+					outcome = ok;
+				}
+				break;
+			}
 			}
 			if (fired) st.hit("fault:allocfail");
 			if (was_shared) st.hit("probe:op_on_shared_buffer");
 			st.state(250 + op.kind, (was_shared ? 8 : 0) + (fired ? 4 : 0) + (pos > usedb ? 2 : 0) + (pos + len > capb ? 1 : 0), outcome);
-			verify3(OPS[op.kind], h);
+			verify3(OPS[op.kind], operated);
 		}
 		for (auto &a : A) { Sut s; delete a; a = 0; }
+		for (auto &a : PA) { Sut s; delete a; a = 0; }
 		check_pending();
 		if (ledger_live()) fail("leak", "%zu block(s) still allocated after the last C++ array went away: %s", ledger_live(), ledger_describe().c_str());
 	}
@@ -616,7 +662,7 @@ struct ArraysWorld : World {
 		typed_array<Tracked> *TA[3]; std::vector<uint32_t> MT[3];
 		for (auto &a : TA) { Sut s; a = new typed_array<Tracked>(); }
 		unique_array<Tracked> *UA; std::vector<uint32_t> MU; { Sut s; UA = new unique_array<Tracked>(); }
-		map<int, Tracked> *MP; std::vector<std::pair<int, uint32_t>> MM; { Sut s; MP = new map<int, Tracked>(); }
+		map<int, Tracked> *MPS[2]; std::vector<std::pair<int, uint32_t>> MMS[2]; for (auto &m : MPS) { Sut s; m = new map<int, Tracked>(); }
 		log.ev("arrays kind=cxx-tracked (typed_array / unique_array / map of tracked elements)");
 		st.hit("kind:cxx_tracked");
 		auto read_arr = [&](const Tracked *b, long n, std::vector<uint32_t> &out, std::set<uint32_t> &ids, const char *after, const char *what) {
@@ -637,9 +683,10 @@ struct ArraysWorld : World {
 				}
 			}
 			{ std::vector<uint32_t> got; read_arr(UA->begin(), UA->length(), got, ids, after, "unique_array"); if (got != MU) fail(operated == 3 ? "wrong-content" : "other-handle-changed", "after %s: unique_array reads %zu elements, model holds %zu", after, got.size(), MU.size()); }
-			{ long n = (long) (MP->end() - MP->begin()); if ((size_t) n != MM.size()) fail("wrong-content", "after %s: map holds %ld entries, model %zu", after, n, MM.size());
-			  for (long i = 0; i < n; ++i) { const map<int, Tracked>::entry &e = MP->begin()[i]; if (e.value.magic != MAGIC || !T.live.count(e.value.id)) fail("dead-element", "after %s: map entry %ld holds a dead element", after, i); ids.insert(e.value.id);
-			    if (e.key != MM[(size_t) i].first || T.live[e.value.id] != MM[(size_t) i].second) fail("wrong-content", "after %s: map entry %ld is (%d -> %x), model (%d -> %x)", after, i, e.key, T.live[e.value.id], MM[(size_t) i].first, MM[(size_t) i].second); } }
+			for (int mi = 0; mi < 2; ++mi) { map<int, Tracked> *MP = MPS[mi]; std::vector<std::pair<int, uint32_t>> &MM = MMS[mi];
+			  long n = (long) (MP->end() - MP->begin()); if ((size_t) n != MM.size()) fail(operated == 4 + mi ? "wrong-content" : "other-handle-changed", "after %s: map %d holds %ld entries, model %zu", after, mi, n, MM.size());
+			  for (long i = 0; i < n; ++i) { const map<int, Tracked>::entry &e = MP->begin()[i]; if (e.value.magic != MAGIC || !T.live.count(e.value.id)) fail("dead-element", "after %s: map %d entry %ld holds a dead element", after, mi, i); ids.insert(e.value.id);
+			    if (e.key != MM[(size_t) i].first || T.live[e.value.id] != MM[(size_t) i].second) fail(operated == 4 + mi ? "wrong-content" : "other-handle-changed", "after %s: map %d entry %ld is (%d -> %x), a value-semantics map holds (%d -> %x)", after, mi, i, e.key, T.live[e.value.id], MM[(size_t) i].first, MM[(size_t) i].second); } }
 			if (ids.size() != T.live.size()) fail("element-leak", "after %s: %zu elements alive, %zu reachable through the containers (constructed and never destroyed)", after, T.live.size(), ids.size());
 		};
 		for (const Op &op : p.ops) {
@@ -704,16 +751,21 @@ struct ArraysWorld : World {
 				break;
 			}
 			case OP_X_MAP: {
-				operated = 4; int key = (int) (op.c % 5); int v = (int) (op.b % 3);
+				int mi = (int) ((op.c / 5) % 2); map<int, Tracked> *MP = MPS[mi]; std::vector<std::pair<int, uint32_t>> &MM = MMS[mi];
+				operated = 4 + mi; int key = (int) (op.c % 5); int v = (int) (op.b % 4);
 				if (v == 0 || v == 1) {
 					bool ok; { Tracked tmp(val); Sut s(failn); ok = v == 0 ? MP->set(key, tmp) : MP->append(key, tmp); fired = g.fired; }
-					log.ev("X_MAP %s key %d%s -> %d", v == 0 ? "set" : "append", key, fired ? " allocfail" : "", (int) ok);
+					log.ev("X_MAP %d %s key %d%s -> %d", mi, v == 0 ? "set" : "append", key, fired ? " allocfail" : "", (int) ok);
 					if (ok) { bool found = false; if (v == 0) for (auto &e : MM) if (e.first == key) { e.second = val; found = true; break; } if (!found) MM.emplace_back(key, val); outcome = 1; }
 					else if (!fired) fail("refused-valid", "map %s refused without allocation fault", v == 0 ? "set" : "append");
+				} else if (v == 3) {
+					// the other map becomes a copy of this one: both now share one buffer
+					{ Sut s; *MPS[1 - mi] = *MP; } MMS[1 - mi] = MM; operated = 4 + (1 - mi);
+					log.ev("X_MAP %d = %d (%zu entries)", 1 - mi, mi, MM.size()); st.hit("probe:map_copied"); outcome = 1;
 				} else {
 					Tracked *g0; { Sut s; g0 = MP->get(key); }
 					const std::pair<int, uint32_t> *want = 0; for (auto &e : MM) if (e.first == key) { want = &e; break; }
-					log.ev("X_MAP get key %d -> %s", key, g0 ? "value" : "absent");
+					log.ev("X_MAP %d get key %d -> %s", mi, key, g0 ? "value" : "absent");
 					if ((g0 != 0) != (want != 0)) fail("wrong-content", "map get(%d) gives %s, model %s", key, g0 ? "a value" : "nothing", want ? "has one" : "has none");
 					if (g0 && (g0->magic != MAGIC || !T.live.count(g0->id) || T.live[g0->id] != want->second)) fail("wrong-content", "map get(%d) returns another entry's value or dead memory", key);
 				}
@@ -741,7 +793,7 @@ struct ArraysWorld : World {
 			verifyT(OPS[op.kind], operated);
 		}
 		for (auto &a : TA) { Sut s; delete a; a = 0; }
-		{ Sut s; delete UA; delete MP; }
+		{ Sut s; delete UA; delete MPS[0]; delete MPS[1]; }
 		check_pending();
 		if (!T.live.empty()) fail("element-leak", "%zu element(s) still alive after the last C++ container went away", T.live.size());
 		if (ledger_live()) fail("leak", "%zu block(s) still allocated after the last C++ container went away: %s", ledger_live(), ledger_describe().c_str());
